@@ -132,7 +132,33 @@ def check_note(res, cmd, vel, module, ctl, val):
         res.violation("C12:note-subfields", f"{case}: sub-fields read {sub}", case)
 
 
+def out_of_width(res):
+    """Values that do not fit a sub-field: the statement allows clamping or masking to the width, nothing else - the field
+    reads as a byte, the sibling half is untouched, the cell still encodes to 8 bytes."""
+    from rv.note import Note
+    for attr, word, shift in (("controller", "ctl", 8), ("effect", "ctl", 0), ("val_xx", "val", 8), ("val_yy", "val", 0)):
+        for old in (0x0000, 0xFFFF, 0x1234, 0x00FF, 0xFF00):
+            for v in (-1, -2, -12, -127, -128, -255, -256, -257, -32768, 256, 257, 300, 511, 32768, 65535, 65536, 70000):
+                res.case(("out-of-width", attr, old, v))
+                res.count("out_of_width_probes")
+                n = Note(ctl=old, val=old)
+                case = {"attr": attr, "old_word": old, "value": v}
+                try:
+                    setattr(n, attr, v)
+                    got = getattr(n, attr)
+                    w = getattr(n, word)
+                    raw = n.raw_data
+                except Exception as e:
+                    res.violation(f"C12:setter-out-of-width-raises:{attr}", f"note.{attr} = {v} (old word {old:#06x}) raised {e!r}", case)
+                    continue
+                sibling_before = (old >> (8 - shift)) & 0xFF if shift == 8 else (old >> 8) & 0xFF
+                sibling_after = (w >> (8 - shift)) & 0xFF if shift == 8 else (w >> 8) & 0xFF
+                if got not in (v & 0xFF, min(max(v, 0), 0xFF)) or not 0 <= w <= 0xFFFF or sibling_after != sibling_before or len(raw) != 8:
+                    res.violation(f"C12:setter-out-of-width:{attr}", f"note.{attr} = {v} (old word {old:#06x}): reads {got}, word {w:#x}, sibling half {sibling_before:#x} -> {sibling_after:#x}", case)
+
+
 def part_notes(res, rng, tier):
+    out_of_width(res)
     from rv.note import NOTECMD
     cmds = sorted(set(NOTECMD), key=int)
     edge16 = [0, 1, 0xFF, 0x100, 0x7FFF, 0x8000, 0xFFFE, 0xFFFF]
@@ -237,6 +263,16 @@ def part_pattern_sequences(res, rng, n):
 
     def rcell():
         return ref_cell(rng.choice(vals), rng.randint(0, 129), rng.randrange(65536), rng.randrange(65536), rng.randrange(65536))
+
+    def image(tracks, lines):
+        """A whole image: dense, or with some LINES entirely blank, or with blank cells sprinkled in."""
+        style = rng.choice(("dense", "blank-lines", "blank-lines", "sparse"))
+        out = []
+        for ln in range(lines):
+            blank_line = style == "blank-lines" and rng.random() < 0.5
+            for tr in range(tracks):
+                out.append(bytes(8) if blank_line or (style == "sparse" and rng.random() < 0.6) else rcell())
+        return out
     for s in range(n):
         tracks, lines = rng.randint(1, 6), rng.randint(1, 8)
         ncell = tracks * lines
@@ -259,7 +295,7 @@ def part_pattern_sequences(res, rng, n):
             op = rng.choice(("assign", "clear", "cell", "bulk", "read", "read-data"))
             history.append(op)
             if op == "assign":
-                model = [rcell() for _ in range(ncell)]
+                model = image(tracks, lines)
                 pat.raw_data = b"".join(model)
             elif op == "clear":
                 pat.clear()
